@@ -368,6 +368,9 @@ const FRAGMENTS: &[&str] = &[
     "&& ", "|| ", "+", "-", "*", "/", "%", "=", "<", ">", "!", "|", "(", ")", "[", "]", "{", "}",
     ",", ".", ":", "$1", "$x.y", "$", "true", "false", "null", "truex", "ü", "日本", "\u{a0}",
     "\u{2028}", "^", "~", "?", "&", ";",
+    // numbers at and beyond the integer range, long fractions and exponents
+    "9223372036854775807", "9223372036854775808", "99999999999999999999", "9_223_372_036_854_775_808", "0xFFFFFFFFFFFFFFFFF", "0b1111111111111111111111111111111111111111111111111111111111111111",
+    "1e400", "1.7976931348623157e309", "0.000000000000000000000000000001", "123456789012345678901234567890.5", "18446744073709551616years", "00012",
 ];
 
 pub fn gen_random(t: &mut Tape) -> String {
